@@ -44,6 +44,11 @@ FLAVOURS = {
     "asan": ["-fsanitize=address,undefined", "-fno-sanitize-recover=undefined", "-fno-omit-frame-pointer"],
     "tsan": ["-fsanitize=thread", "-fno-omit-frame-pointer"],
 }
+# Coverage mode (bin/covreport, development aid, never used by a registered check): VERIF_COV=<dir> replaces the sanitizers of
+# every flavour by clang source-based coverage; the drivers write their profiles into <dir>.
+COVDIR = os.environ.get("VERIF_COV", "")
+if COVDIR:
+    FLAVOURS = {k: ["-fprofile-instr-generate", "-fcoverage-mapping"] for k in FLAVOURS}
 BASEFLAGS = ["-std=c++17", "-O1", "-g", "-w", "-D" + GUARD, "-I" + os.path.join(REPO, "src"),
              "-I" + os.path.join(ROOT, "harness")]
 LIB_EXCLUDE = ("print_version_info.cpp",)
@@ -133,6 +138,8 @@ def run_driver(exe, args, stdin_path=None, stdout_path=None, timeout=300, env=No
     e["TZ"] = "UTC"
     if env:
         e.update(env)
+    if COVDIR:
+        e["LLVM_PROFILE_FILE"] = os.path.join(mkdir(COVDIR), "%p-%m.profraw")
     fin = open(stdin_path, "rb") if stdin_path else subprocess.DEVNULL
     fout = open(stdout_path, "wb") if stdout_path else subprocess.DEVNULL
     try:
